@@ -142,7 +142,7 @@ def check_alt(ctx, parser, text, want, sig):
     got = _fields(d)
     full = {"years": 0, "months": 0, "days": 0, "hours": 0, "minutes": 0, "seconds": 0}
     full.update(want)
-    if got.keys() != full.keys() or any(Fraction(got[k]) != Fraction(full[k]) for k in full):
+    if got.keys() != full.keys() or any(got[k] is None or Fraction(got[k]) != Fraction(full[k]) for k in full):
         ctx.violation("alternative_fidelity", sig, case, full, {k: repr(v) for k, v in got.items()})
         return
     # same duration as its designator spelling
@@ -239,6 +239,14 @@ def run_unit(unit, ctx):
                 check_alt(ctx, parser, "P%04d-%02d-%02dT12:30:15,5" % (y, mo, d),
                           {"years": y, "months": mo, "days": d, "hours": 12, "minutes": 30, "seconds": 15.5},
                           {"form": "decimal_seconds"})
+        # reduced dates of the alternative notation (the parser documents year, year-month and ordinal dates without a
+        # time part): omitted lower-order fields are zero, and the value is usable (==, hash, str) like any other
+        check_alt(ctx, parser, "P%04d" % y, {"years": y}, {"form": "year_only"})
+        for mo in ALT_MO:
+            check_alt(ctx, parser, "P%04d-%02d" % (y, mo), {"years": y, "months": mo}, {"form": "year_month_ext"})
+        for doy in ALT_DOY:
+            check_alt(ctx, parser, "P%04d-%03d" % (y, doy), {"years": y, "days": doy}, {"form": "ordinal_date_only_ext"})
+            check_alt(ctx, parser, "P%04d%03d" % (y, doy), {"years": y, "days": doy}, {"form": "ordinal_date_only_basic"})
     elif u == "alt_forms":
         # the alternative notation over M's whole table of time forms (incl. decimal hours and minutes)
         from isomc import mtext
